@@ -5,7 +5,7 @@ PROP = dict(
     required=["consolidate_perm", "consolidate_names", "consolidate_sorted", "consolidate_stable",
               "consolidate_idempotent", "construct_first", "construct_second", "construct_second_empty",
               "stats_general", "stats_max", "stats_min", "stats_sum", "stats_count", "stats_mean",
-              "stats_negative_max", "stats_huge_min", "stats_max_witness",
+              "stats_negative_max", "stats_huge_min", "stats_max_witness", "stats_ordered", "proc_ordered",
               "proc_max", "proc_min", "proc_sum", "proc_mean",
               "classify_partition", "classify_invalid", "classify_canceled_zero", "tally_correct", "tally_ok_iff",
               "tally_sum", "byType_partition", "show_agrees"],
@@ -28,7 +28,7 @@ PROP = dict(
         "an event log file is read completely before it is consolidated; the order of the globbed files is whatever "
         "Path.glob yields (stability is stated relative to that order)",
         "resource statistics samples are exact (dyadic) numbers: Python float addition/comparison on them is exact; the "
-        "system statistics theorems need every sample in [0, sys.maxsize), the range the initial values 0.0 / sys.maxsize "
+        "system statistics theorems need every sample in [0, sys.maxsize], the range the initial values 0.0 / sys.maxsize "
         "are meant for (outside it stats_negative_max / stats_huge_min say what is reported instead)",
         "result rows are for distinct configured jobs (C08) and canceled rows carry a non-zero return code (C04); a "
         "canceled row with code 0 makes _build_results raise AssertionError (classify_canceled_zero)",
